@@ -124,6 +124,24 @@ class _GraphIO(collections.UserList["_core.Value"]):
         """Get an input/output from the graph."""
         return self.data[i]
 
+    def __delitem__(self, i) -> None:
+        """Remove an input/output (or a slice of them) from the graph."""
+        removed = self.data[i]  # Raises IndexError before anything is modified
+        super().__delitem__(i)
+        if not isinstance(i, slice):
+            removed = (removed,)
+        for value in removed:
+            self._maybe_unset_graph(value)
+        self._check_invariance()
+
+    def __imul__(self, n):
+        """Repeat the list in place, keeping track of every added reference."""
+        if n <= 0:
+            self.clear()
+        else:
+            self.extend(self.data * (n - 1))
+        return self
+
     def _unimplemented(self, *_args, **_kwargs):
         """Unimplemented method."""
         raise RuntimeError("Method is not supported")
